@@ -33,7 +33,7 @@ fn replay_once<'p>(p: &'p Program, hist: &[HEv], cfg: &MachineCfg, partial: bool
         // hidden steps may fire before any event
         for u in 0..nt {
             if let Some(pc) = invoked[u] {
-                if m.pc(u) == pc && hidden_phase_pending(&m, u) && ch.choose(2) == 1 {
+                if m.pc(u) == pc && hidden_phase_pending(&m, u) && m.enabled(u) && ch.choose(2) == 1 {
                     step_checked(&mut m, u, None, ch)?;
                 }
             }
@@ -50,15 +50,32 @@ fn replay_once<'p>(p: &'p Program, hist: &[HEv], cfg: &MachineCfg, partial: bool
                 invoked[t] = Some(ev.pc as usize);
             }
             HK::Spin => {
-                // a failed spin iteration of Await: a plain read of the logged value
-                m.spin_read(t, ev.res.unwrap(), ch).map_err(|e| match e {
-                    StepErr::Reject(r) => r,
-                })?;
+                if m.is_block_on(t) {
+                    // a poll that returned Pending after reading the logged value
+                    advance_hidden(&mut m, t, ch)?;
+                    step_checked(&mut m, t, ev.res, ch)?;
+                } else {
+                    // a failed spin iteration of Await: a plain read of the logged value
+                    m.spin_read(t, ev.res.unwrap(), ch).map_err(|e| match e {
+                        StepErr::Reject(r) => r,
+                    })?;
+                }
             }
             HK::Unwind | HK::Note => {}
             HK::Ret => {
                 if m.pc(t) != ev.pc as usize {
                     return Err(format!("T{} returned from op {} but the reference is at {}", t, ev.pc, m.pc(t)));
+                }
+                if m.is_block_on(t) {
+                    // the final poll read the awaited value
+                    advance_hidden(&mut m, t, ch)?;
+                    let want = m.block_on_value(t);
+                    let done = step_checked(&mut m, t, want, ch)?;
+                    if !done {
+                        return Err(format!("T{} pc{}: block_on returned although its last poll cannot have been Ready", t, ev.pc));
+                    }
+                    invoked[t] = None;
+                    continue;
                 }
                 if hidden_phase_pending(&m, t) {
                     step_checked(&mut m, t, None, ch)?;
@@ -81,8 +98,14 @@ fn replay_once<'p>(p: &'p Program, hist: &[HEv], cfg: &MachineCfg, partial: bool
     }
     // end of history: fire remaining hidden phases (the thread is inside the op)
     for u in 0..nt {
-        if invoked[u].is_some() && hidden_phase_pending(&m, u) {
+        if invoked[u].is_some() && hidden_phase_pending(&m, u) && !m.is_block_on(u) {
             step_checked(&mut m, u, None, ch)?;
+        }
+        if invoked[u].is_some() && m.is_block_on(u) {
+            // a thread stuck in block_on: after a Pending poll it registers (if it had not) and waits
+            while m.block_on_can_advance_to_wait(u) {
+                step_checked(&mut m, u, None, ch)?;
+            }
         }
     }
     if !partial {
@@ -110,6 +133,22 @@ fn replay_once<'p>(p: &'p Program, hist: &[HEv], cfg: &MachineCfg, partial: bool
         }
     }
     Ok(Accept { race, race_large, deadlocked: !any_enabled && !all_done, all_done, leak: if all_done { m.leak() } else { None }, leaks: if all_done { m.leaks() } else { vec![] }, results: m.results.clone() })
+}
+
+/// fire the hidden sub-steps of a block_on (registration, wake-up) until its next poll
+fn advance_hidden(m: &mut Machine<'_>, t: usize, ch: &mut dyn Choose) -> Result<(), String> {
+    let mut guard = 0;
+    while m.in_compound_first_phase(t) {
+        if !m.enabled(t) {
+            return Err(format!("T{}: block_on polled again although it was neither woken nor (once) spuriously resumed", t));
+        }
+        step_checked(m, t, None, ch)?;
+        guard += 1;
+        if guard > 8 {
+            return Err("block_on hidden steps do not converge".into());
+        }
+    }
+    Ok(())
 }
 
 fn hidden_phase_pending(m: &Machine<'_>, t: usize) -> bool {
